@@ -94,6 +94,12 @@ def _aliases(expr, alias):
     """Does expr (may) alias one of the names in `alias`?  -> name or None"""
     if isinstance(expr, ast.Name):
         return expr.id if expr.id in alias else None
+    if isinstance(expr, ast.Attribute) and isinstance(
+            expr.value, ast.Name) and expr.value.id == 'self':
+        # a field that was bound, in this function, to (a view of) an
+        # argument
+        k = 'self.' + expr.attr
+        return k if k in alias else None
     if isinstance(expr, ast.Attribute) and expr.attr in ('T', 'values'):
         return _aliases(expr.value, alias)
     if isinstance(expr, ast.Subscript):
@@ -276,6 +282,16 @@ def _writes_through(repo, cls, fn, params, depth=0, memo=None):
                             elems.add(t)
                     elif pos is not None and None in pos:
                         alias[t] = 'the result of %s' % what
+                    else:
+                        alias.pop(t, None)
+                elif len(s.targets) == 1 and isinstance(
+                        s.targets[0], ast.Attribute) and isinstance(
+                        s.targets[0].value, ast.Name) \
+                        and s.targets[0].value.id == 'self':
+                    t = 'self.' + s.targets[0].attr
+                    a = _aliases(s.value, alias)
+                    if a and a not in elems:
+                        alias[t] = alias[a]
                     else:
                         alias.pop(t, None)
                 elif len(s.targets) == 1 and isinstance(
